@@ -887,28 +887,42 @@ def correspond(case, res, chs, batch: Batch):
             chs["vinit"].nontrivial.add((rep["id"], case.key()))
         model_err["n"] += len(real)
 
-    # ---- vmpd: attribute checks with their location
-    toks, where = M.doc_token(root, case.mode == "live")
-    by_line = {}
-    for key, ln in where.items():
-        by_line.setdefault(ln, []).append(key)
-    real = set()
-    for e in res.errors:
-        k = M.classify_mpd_error(e["msg"])
-        if k is None:
+    # ---- vmpd: attribute checks with their location – for EVERY manifest the session loaded (the errors of
+    # the manifest tree are archived at the next refresh, so each manifest is judged in the first pass it
+    # was in effect), not only for the last one
+    seen_texts = []
+    for pi, p in enumerate(res.passes):
+        lines_ = p["post"].get("lines")
+        if not lines_ or lines_ in seen_texts:
             continue
-        want = {"periodId": "period", "adpMimeType": "adp", "sDuration": "timeline", "sStart": "timeline"}.get(
-            k, "rep" if k in ("repBandwidth", "repId", "repMimeType", "initialization", "media", "repAst",
-                              "repTsbd", "tmplDuration") else "mpd")
-        keys = [x for x in by_line.get(e["start"], []) if x.split(":")[0].replace("reptimeline", "timeline") == want]
-        loc = keys[0] if keys else f"line{e['start']}"
-        real.add(f"{loc}={k}")
-    batch.add(chs["vmpd"], "vmpd " + " ".join(toks), ",".join(sorted(real)) or "-", info,
-              canon=lambda s: ",".join(sorted(set(s.split(",")))) if s != "-" else "-")
-    chs["vmpd"].count("corrupted-manifest" if (case.corruption or {}).get("kind") == "mpdattr" else "as-served")
-    if real:
-        chs["vmpd"].nontrivial.add((tuple(sorted(real)), case.key()))
-    model_err["n"] += len(real)
+        seen_texts.append(lines_)
+        try:
+            root_p = root if lines_ == last["lines"] else M.parse_xml(lines_)
+        except Exception:
+            continue
+        toks, where = M.doc_token(root_p, case.mode == "live")
+        by_line = {}
+        for key, ln in where.items():
+            by_line.setdefault(ln, []).append(key)
+        real = set()
+        for e in p["post"].get("tree_errors", []):
+            k = M.classify_mpd_error(e["msg"])
+            if k is None:
+                continue
+            want = {"periodId": "period", "adpMimeType": "adp", "sDuration": "timeline", "sStart": "timeline"}.get(
+                k, "rep" if k in ("repBandwidth", "repId", "repMimeType", "initialization", "media", "repAst",
+                                  "repTsbd", "tmplDuration") else "mpd")
+            keys = [x for x in by_line.get(e["start"], [])
+                    if x.split(":")[0].replace("reptimeline", "timeline") == want]
+            loc = keys[0] if keys else f"line{e['start']}"
+            real.add(f"{loc}={k}")
+        batch.add(chs["vmpd"], "vmpd " + " ".join(toks), ",".join(sorted(real)) or "-", {**info, "pass": pi},
+                  canon=lambda s: ",".join(sorted(set(s.split(",")))) if s != "-" else "-")
+        chs["vmpd"].count("corrupted-manifest" if (case.corruption or {}).get("kind") == "mpdattr" else "as-served")
+        chs["vmpd"].count("manifest:" + ("first" if len(seen_texts) == 1 else "refreshed"))
+        if real:
+            chs["vmpd"].nontrivial.add((tuple(sorted(real)), pi, case.key()))
+        model_err["n"] += len(real)
 
     # ---- vrefresh
     for i, rc in enumerate(res.refresh_checks):
